@@ -42,6 +42,18 @@ func (it *Interp) opRoundtrip(op *Op) {
 		panic("bad op: roundtrip needs an unlocked world and two backends")
 	}
 	b0, b1 := it.B[0], it.B[1]
+	// the lock-step phase below is not modelled: take the observers out first
+	for _, b := range it.B {
+		for j, on := range b.obsOn {
+			if on {
+				b.obs[j].Unregister(b.W)
+				b.obsOn[j] = false
+			}
+		}
+	}
+	for _, o := range it.M.Obs {
+		o.Registered = false
+	}
 	dump0 := b0.U.DumpEntities()
 	snap := copyDump(dump0)
 	fl := freeList(&dump0)
